@@ -155,7 +155,29 @@ def parse_cbmc_json(out):
     return {'results': results, 'messages': msgs, 'status': status}, None
 
 
+import threading
+MEM_TOTAL_GB = float(os.environ.get('VERIF_MEM_GB', '52'))
+_mem_cv = threading.Condition()
+_mem_used = [0.0]
+
+
 def run_obligation(ob, workroot, keep=False):
+    """admission control: the sum of the memory limits of running obligations stays below the machine's RAM
+    (the kernel OOM killer otherwise takes solvers down, which would read as a timeout)"""
+    need = min(float(ob.get('mem_gb', 12)) * 1.3, MEM_TOTAL_GB)     # query + points-to guard
+    with _mem_cv:
+        while _mem_used[0] + need > MEM_TOTAL_GB and _mem_used[0] > 0:
+            _mem_cv.wait()
+        _mem_used[0] += need
+    try:
+        return _run_obligation(ob, workroot, keep)
+    finally:
+        with _mem_cv:
+            _mem_used[0] -= need
+            _mem_cv.notify_all()
+
+
+def _run_obligation(ob, workroot, keep=False):
     """returns a result dict"""
     t0 = time.time()
     res = {'name': ob['name'], 'desc': ob.get('desc', ''), 'bounds': ob.get('bounds', {}), 'verdict': None,
@@ -203,7 +225,8 @@ def run_obligation(ob, workroot, keep=False):
         return res
     res['cbmc_wall_s'] = round(wall, 2)
     if rc == -9:
-        res['verdict'] = 'inconclusive'; res['reason'] = 'cbmc timeout after %ds' % ob.get('timeout', 600)
+        res['verdict'] = 'inconclusive'
+        res['reason'] = 'cbmc killed after %.0fs (time limit %ds, or SIGKILL from the kernel)' % (wall, ob.get('timeout', 600))
         res['wall_s'] = time.time() - t0
         return res
     parsed, perr = parse_cbmc_json(out)
@@ -434,6 +457,12 @@ def write_evidence(prop, tier, seed, mod, obs, results, wall, nviol, known_hits)
                     'reachable by the same query; obligations are distinct by name',
             'samples': samples,
             'functions_encoded': funcs,
+            'states': max(1, sum((r.get('program_steps') or 0) for r in results)),
+            'transitions': max(1, sum((r.get('sat_clauses') or 0) for r in results)),
+            'traces_validated_against_impl': sum(1 for r in results if r.get('replay', {}).get('reproduced')),
+            'states_transitions_meaning': 'states = SSA steps of the symbolic executions (size of program expression, summed over the queries); '
+                                          'transitions = CNF clauses handed to the SAT solver (summed); traces_validated = counterexample traces '
+                                          're-executed natively in this run',
             'queries_discharged': len(holds),
             'queries_total': len(results),
             'solver_seconds': round(sum((r.get('solver_s') or 0) for r in results), 2),
